@@ -452,3 +452,18 @@ pub(crate) fn into_locate(s: Span) -> Locate {
         len: s.fragment().len(),
     }
 }
+
+// -----------------------------------------------------------------------------
+
+#[cfg(feature = "verif")]
+pub(crate) fn verif_thread_state() -> (usize, Vec<String>) {
+    let depth = IN_DIRECTIVE.with(|x| x.borrow().len());
+    let versions = CURRENT_VERSION.with(|current_version| {
+        current_version
+            .borrow()
+            .iter()
+            .map(|x| format!("{:?}", x))
+            .collect()
+    });
+    (depth, versions)
+}
